@@ -31,16 +31,23 @@ let hex (s : string) : string =
   String.iter (fun c -> Buffer.add_string b (Printf.sprintf "%02x" (Char.code c))) s;
   Buffer.contents b
 
+(* the environment of XML trees sent by the harness: `loadxml <hexname> <hexserialisation>` *)
+let env : Model.menv ref = ref []
+
 let () =
   try
     while true do
       let line = input_line stdin in
       match String.split_on_char ' ' line with
       | [] | [""] -> print_endline ""
+      | "loadxml" :: name :: ser :: _ ->
+        (match Model.env_add !env (str_of_string (unhex name)) (str_of_string (unhex ser)) with
+         | Some e -> env := e; print_endline (hex "ok")
+         | None -> print_endline (hex "?parse"))
       | u :: args ->
         let args = List.filter (fun a -> a <> "") args in
         let res =
-          try string_of_str (Model.dispatch (str_of_string u) (List.map (fun a -> str_of_string (unhex a)) args))
+          try string_of_str (Model.dispatch_env !env (str_of_string u) (List.map (fun a -> str_of_string (unhex a)) args))
           with Stack_overflow -> "?stack" in
         print_endline (hex res)
     done
